@@ -107,6 +107,10 @@ pub fn exec(a: &[&str]) -> String {
         let e = Exts::new(u8::from_str_radix(a[1], 16).unwrap());
         return format!("rc={:02x} rcrc={:02x} comp={:02x} rev={:02x}", e.rc().val, e.rc().rc().val, e.complement().val, e.reverse().val);
     }
+    if a[1] == "kmersb" || a[1] == "kmersa" {
+        // the bulk constructors (named by C13) are requests of the k-mer harness
+        return crate::c10::exec(a);
+    }
     let seq = digits(a[3]);
     with_named_kmer!(a[0], run, a[1], a[2], &seq, &a[4..])
 }
@@ -119,7 +123,7 @@ fn container(rng: &mut Rng, k: usize, allow_bytes: bool) -> (String, Vec<u8>, us
     let pick = rng.below(if allow_bytes { 7 } else { 5 });
     let len = match rng.below(6) {
         0 => rng.below(k + 1),                                  // shorter than / equal to K
-        1 => *rng.pick(&[31usize, 32, 33, 63, 64, 65, 95, 96, 97]),
+        1 => *rng.pick(&[31usize, 32, 33, 63, 64, 65, 95, 96, 97, 127, 128, 129, 160, 191, 192, 193, 256, 257, 300]),
         _ => k + rng.below(80),
     };
     match pick {
@@ -154,6 +158,15 @@ fn container(rng: &mut Rng, k: usize, allow_bytes: bool) -> (String, Vec<u8>, us
 
 pub fn gen(rng: &mut Rng, _tier: &str) -> String {
     let (kt, k) = *rng.pick(&KTYPES);
+    if rng.chance(1, 10) {
+        // bulk constructors: packed bases, or text in either case with other characters
+        let len = if rng.chance(1, 10) { rng.below(k) } else { k + rng.below(40) };
+        if rng.chance(1, 2) {
+            let v: Vec<u8> = (0..len).map(|_| rng.below(4) as u8).collect();
+            return format!("C13 {} kmersb {}", kt, show_digits(&v));
+        }
+        return format!("C13 {} kmersa {}", kt, crate::c10::ascii_noise(rng, len.max(1)));
+    }
     let (spec, seq, n) = container(rng, k, true);
     match rng.below(4) {
         0 | 1 if n >= k => format!("C13 {} getkmer {} {} {}", kt, spec, show_digits(&seq), rng.below(n - k + 1)),
